@@ -1,23 +1,39 @@
 package rules
 
+// Property -> rules. Explanations state the clause decided and what is not decided.
+
+const trustDeps = "dependencies (spec, analysis, swag, strfmt, errors, loads, reflect, regexp) are type-checked but not analysed: summarised by small tables written from reading the pinned versions"
+
 func init() {
+	Properties["C04"] = PropSpec{
+		Rules:          []Rule{PoolCtor, PoolAPI, ResLinear, Slots},
+		DebugConfigToo: true,
+		Explanation: "Decides the complete structural argument the code relies on for recycling safety, on every path and call order: POOL-CTOR/POOL-CLEARED (a borrowed validator has every field assigned before it is returned and no field is read before assignment, directly or via methods of the half-built object; a recycled Result is reset leaf field by leaf field; scratch schemas are overwritten as a whole before any use); POOL-API (sync.Pool only inside Borrow*/Redeem*, Redeem<T> only from (*T).redeem, redeem() only from the deferred closure of the type's own Validate or on a child held in a slot, resetPools only at init, emptyResult refused by RedeemResult); EMPTY-IMMUTABLE (no mutating use of a value that may be the shared empty result); RES-LINEAR (forward may-dataflow per function with derived consuming positions: no use, return or second release of a pooled result after the call that released it, deferred releases take effect at RunDefers); SLOT-PRECLEAR/POSTCLEAR/INIT/SELFREDEEM/ONESHOT (typestate of child validators in slots: emptied under the recycle option before the child runs, emptied after a release, filled only in the parent's constructor from distinct constructor calls, self-release deferred once under the guard, fresh validators run once); DEFER-INIT.",
+		NotDecided:  "That outcomes equal those of a fresh process (behavioural); aliasing carried through dependencies; leaks (not violations).",
+		Assumptions: []string{"a recycling validator is used once (documented contract)", trustDeps},
+	}
 	Properties["C05"] = PropSpec{
-		Rules:       []Rule{Globals},
-		Explanation: "Static analysis of the SSA form of /repo: every package-level variable is classified (sync object, initialised-only, guarded by a lock) and for guarded ones every run-time access is checked to hold the guarding mutex (must-held lockset dataflow with call-site propagated entry sets).",
-		NotDecided:  "The Go memory model, races inside dependencies, caller-supplied registries, equality of concurrent and sequential outcomes beyond independence of shared state.",
-		Assumptions: []string{"lock held at both accesses implies no data race (Go memory model)", "dependencies are trusted"},
+		Rules:       []Rule{Globals, Cow, PoolAPI, ResLinear, Slots, Stateless},
+		Explanation: "Decides the structural conditions race-freedom and independence rest on, for every function and path: GLOBALS (every package-level variable classified: sync object / never written after init / guarded) + LOCKSET (every run-time access of a guarded global holds the mutex common to its writers; must-held locksets with call-site propagated entry sets); COW (published regexp-cache snapshots are never written, publication under the mutex after an in-section reload, into a fresh map); exclusive ownership of pooled objects (RES-LINEAR: nothing is read after its release, nothing released twice; SLOT-*: no child reachable from two owners; POOL-API, EMPTY-IMMUTABLE: the shared empty result is never written); STATELESS (a validator built without recycling is only read while validating, so it can be shared).",
+		NotDecided:  "The Go memory model itself; races inside dependencies (spec expander, analysis); caller-supplied registries; equality of concurrent and solitary outcomes beyond independence of shared state.",
+		Assumptions: []string{"lock held at both accesses implies no data race", "sync.Pool hands an object to one borrower at a time", trustDeps},
+	}
+	Properties["C08"] = PropSpec{
+		Rules:       []Rule{Stateless, Slots},
+		Explanation: "STATELESS effect analysis over every function: each store into a field (or element of an array/slice/map held in a field) of the 13 validator types outside their constructors, and each call of a receiver-mutating method (summaries computed, interface dispatch resolved by method name over the implementations), is (i) guarded by the recycle option (directly or because the enclosing function is recycle-only, greatest fixpoint over call sites), (ii) applied to an object constructed in the same activation, or (iii) applied to an ephemeral type whose every instance is created, run once and dropped. SLOT-INIT: children are built only in the parent's constructor from distinct constructor calls; SLOT-ONESHOT: per-element validators are fresh.",
+		NotDecided:  "Determinism of dependencies; lazy spec.ExpandSchema on sub-schemas that still contain $ref; equality of message sets across repetitions (behavioural).",
+		Assumptions: []string{"validator state = fields of the validator types; caller-supplied registries are outside", trustDeps},
+	}
+	Properties["C11"] = PropSpec{
+		Rules:       []Rule{Slots, PoolAPI, PoolCtor},
+		Explanation: "Decides, for every unwind point at once, that a panic cannot leave an object twice in a pool: SLOT-PRECLEAR (on every recycle path the slot is emptied between loading a child and running it, so the parent's deferred redeemChildren never sees a child that released itself); SLOT-SELFREDEEM (each Validate registers exactly one deferred self-release, children first, under the recycle guard, with only non-panicking calls before the registration); SLOT-POSTCLEAR for released children; DEFER-INIT (a deferred release is registered only after the released variable is assigned, so a panic cannot put a nil in a pool); scratch schemas are released by a deferred closure of the borrowing function. Results borrowed before a panic are merely leaked.",
+		NotDecided:  "State kept inside the caller's format checker or inside dependencies; outcome equality of later validations (follows from pool integrity, which is what is decided).",
+		Assumptions: []string{"panics originate in callees of Validate (format checkers, documented invalid-schema panic)", trustDeps},
 	}
 	Properties["C15"] = PropSpec{
 		Rules:       []Rule{Cow},
 		Explanation: "Static analysis of the whole pattern-cache mechanism on SSA: published snapshots are never written (no MapUpdate/delete on a value derived from the cache load, anywhere in the package); publication happens only in one function, with the mutex in the must-held lockset, after re-loading the snapshot inside the critical section, into a freshly made map that receives every old entry and new entries keyed by String() of the inserted expression; lookups use the requested pattern as key; the miss path compiles exactly the pattern parameter, returns/caches that very value, and returns the compile error unchanged with nothing cached; regexp.Compile/MustCompile/Match* occur nowhere else; the Must variant is only called with constants that the checker itself parses; every call site uses the expression only where the error is known nil.",
 		NotDecided:  "The regexp package itself (matching semantics), and sync/atomic.",
 		Assumptions: []string{"regexp.Regexp.String() returns the source text used to compile (regexp documentation)", "sync.Mutex and atomic.Value are correct"},
-	}
-	Properties["C04"] = PropSpec{
-		Rules:          []Rule{PoolCtor, PoolAPI, ResLinear, Slots},
-		DebugConfigToo: true,
-		Explanation:    "(being extended) POOL-CTOR: every field of a borrowed validator is assigned on every path before the object is returned, no field is read (directly or through a method of the half-built object) before it is assigned; a recycled Result is reset field by field by the clearing function the borrow applies; scratch schemas are overwritten as a whole before any use.",
-		NotDecided:     "Agreement of outcomes with a fresh process (behavioural); aliasing carried through dependencies.",
-		Assumptions:    []string{"a recycling validator is used once (documented contract)"},
 	}
 }
